@@ -435,6 +435,9 @@ def replay_cex(cex, native):
     """True = the real crate (dev or release build) exhibits what the property forbids."""
     if cex.get('glue'):
         return replay_glue(cex, native)
+    if cex.get('v2'):
+        import props_v2
+        return props_v2.replay(cex, native)
     reqs = [(e, bytes.fromhex(h)) for e, h in cex['runs']]
     verdicts = []
     notes = []
@@ -517,6 +520,8 @@ def violated(cex, o):
         if any(x['panic'] for x in o):
             return True
         return a[0] != a[1] and not (a[0][0] is False and a[1][0] is False and cex.get('both_errors_ok'))
+    if k == 'write_to':
+        return 'ok=false' in o[0]['raw'] or o[0]['panic']
     if k.startswith('builder_'):
         raw = o[0]['raw']
         if 'legit=false' in raw:
@@ -1486,3 +1491,61 @@ def c07_builder_t(prog, lmax):
 SPECS['C07'] = {'kinds': [], 'lmax': {'quick': 0, 'thorough': 0}, 'modular': 'c07_builder_q', 'modular_thorough': 'c07_builder_t', 'obligations': [], 'no_v1': True}
 for _pid, _q, _t in (('C09', 'c09_builder_q', 'c09_builder_t'), ('C10', 'c10_builder_q', 'c10_builder_t'), ('C20', 'c20_builder_q', 'c20_builder_t')):
     SPECS[_pid] = {'kinds': [], 'lmax': {'quick': 0, 'thorough': 0}, 'modular': _q, 'modular_thorough': _t, 'obligations': [], 'no_v1': True}
+
+
+# ------------------------------------------------------------------ what each modular obligation states as its bound (goes into the evidence file)
+MODULAR_META = {
+    'c16_modular': {'bounds': ['c16_modular: window logic, from_utf8, str::get, map_err, FromStr glue executed with parse_header / try_from(&str) as an uninterpreted function of its argument slice; every valid-UTF-8 text of at most LMAX={LMAX} bytes']},
+    'c06_glue': {'bounds': ['c06_glue: HeaderResult::parse, From impls, is_incomplete, is_complete executed on every pair of dedicated-parser results (every variant, opaque payloads): exhaustive over the finite variant space, no size bound']},
+    'c03_glue_nopanic': {'bounds': ['c03_glue_nopanic: the auto-detecting entry point and the PartialResult impls on every pair of dedicated-parser results']},
+    'c08_prepare': {'bounds': ['c08: Display for v1::Addresses decoded from its MIR template constant; every address value (std Display/FromStr of the address types as contract axioms)']},
+}
+_BUILDER_BOUND = 'builder histories: every sequence of at most %d calls from {set_length(Some), set_length(None), reserve_capacity, write_payload(u8|u16|&[u8]|Type), write_tlv, write_payloads} after new / with_addresses(IPv4) (Unix for <= 1 call), ended by build; all values symbolic, payload sizes unbounded integers (Vec as segment list)'
+for _n, _k in (('c09_builder_q', 2), ('c09_builder_t', 3), ('c10_builder_q', 2), ('c10_builder_t', 3), ('c20_builder_q', 2), ('c20_builder_t', 3), ('c07_builder_q', 1), ('c07_builder_t', 2)):
+    MODULAR_META[_n] = {'bounds': [_BUILDER_BOUND % _k],
+                        'functions': ['v2::Builder::{new, with_addresses, set_length, reserve_capacity, write_payload, write_payloads, write_tlv, write_internal, write_header, build}', 'v2::Writer::{from, finish, write}', 'WriteToHeader impls (u8, u16, [u8], TypeLengthValue, (T, &[u8]), Type, Addresses, &T)'],
+                        'models': ['builder models (/verif/mirsym/models_b.py): Vec<u8> as segment list (with_capacity/reserve/push/extend_from_slice/len/index ranges/copy_from_slice), io::Write::write_all as std\'s loop around the crate\'s own Writer::write MIR, u16::try_from(usize), to_be_bytes, Ipv4Addr/Ipv6Addr::octets, array iteration']}
+
+
+# ------------------------------------------------------------------ v2 half (unbounded input length): see props_v2.py
+def _v2(clauses, label, **kw):
+    def fn(prog, lmax):
+        import props_v2
+        n, nval, recs = props_v2.run_v2(prog, set(clauses), label, **kw)
+        meta = {'bounds': [props_v2.BOUND + '; clauses: ' + ', '.join(sorted(clauses))], 'functions': props_v2.FUNCTIONS + (props_v2.FUNCTIONS_REBUILD if 'rebuild' in clauses else []),
+                'models': [props_v2.MODELS], 'validated': nval}
+        return n, 0, recs, meta
+    return fn
+
+
+V2_CLAUSES = {
+    'C02': ['accept'], 'C12': ['blame', 'flags'], 'C17': ['counts', 'completion', 'flags'], 'C14': ['views'], 'C04': ['trailer'], 'C05': ['prefix', 'flags'],
+    'C11': ['tlv_step', 'views'], 'C13': ['rebuild'], 'C03': ['views', 'tlv_step'], 'C16': ['views'],
+}
+def c20_write_to(prog, lmax):
+    import props_b
+    n, _, recs = props_b.c20_write_to(prog)
+    meta = {'bounds': ['c20_write_to: every WriteToHeader impl (12 integer types, Type, Addresses x 4 families, TypeLengthValue, (u8, &[u8]), (Type, &[u8]), TypeLengthValues, [u8], &[u8]) called directly on a writer holding an arbitrary prefix of 0..65551 bytes; value / slice / section lengths are unbounded integers; returned count, appended bytes, to_bytes and refusal checked'],
+            'functions': ['WriteToHeader::{write_to (every impl), to_bytes}', 'impl Write for v2::Writer', 'Writer::{default, finish}']}
+    return n, 0, recs, meta
+
+
+for _t in ('modular', 'modular_thorough'):
+    _o = SPECS['C20'][_t]
+    SPECS['C20'][_t] = ([_o] if isinstance(_o, str) else list(_o)) + ['c20_write_to']
+
+for _pid, _cl in V2_CLAUSES.items():
+    _name = 'v2_' + _pid.lower()
+    globals()[_name] = _v2(_cl, _name)
+    if _pid == 'C13':
+        globals()[_name + '_t'] = _v2(_cl, _name, max_items=3)
+    if _pid in SPECS:
+        _old = SPECS[_pid].get('modular')
+        SPECS[_pid]['modular'] = ([_old] if isinstance(_old, str) else list(_old or [])) + [_name]
+        if SPECS[_pid].get('modular_thorough'):
+            _o2 = SPECS[_pid]['modular_thorough']
+            SPECS[_pid]['modular_thorough'] = ([_o2] if isinstance(_o2, str) else list(_o2)) + [_name]
+    else:
+        SPECS[_pid] = {'kinds': [], 'lmax': {'quick': 0, 'thorough': 0}, 'modular': [_name], 'obligations': [], 'no_v1': True}
+        if _pid == 'C13':
+            SPECS[_pid]['modular_thorough'] = [_name + '_t']
